@@ -125,6 +125,13 @@ pub fn cmd_hist(args: &[String]) {
         // a seed is always set so that `generate` is deterministic
         c.mode = Mode::Rand(rng.next() % 100000);
         c.warm = 0;
+        // reuse bugs often hide behind mutator state: favour registered mutators at a high rate
+        if id % 2 == 0 {
+            c.mask |= 1 << (rng.below(7) as u8);
+            c.rate_bits = if rng.coin() { 1.0f64.to_bits() } else { 0.5f64.to_bits() };
+            c.min = 60;
+            c.max = 200;
+        }
         let k = 1 + rng.below(maxlen);
         let mut calls = Vec::new();
         for _ in 0..k {
